@@ -325,4 +325,5 @@ def run(chk):
     from .c19 import NODE_INIT_REF
     check_equiv(chk, "C19.R1", CORE, "Node", "__init__", NODE_INIT_REF, "node-construction",
                 "a node without a parent is its own parent and root (integer positions by default); with a parent it is attached to it (not copied); declared children are attached as copies",
-                no_inline=("_add_children",))
+                no_inline=("_add_children",), ignore_fields=("_original_children_are_present",))
+    tree_rules.declared_children_flag(chk)
